@@ -243,74 +243,106 @@ int main(int argc, char **argv) {
   bsx::Report R;
   R.property = "C05"; R.part = "ring"; R.tier = a.tier;
   bool thorough = a.tier == "thorough";
-  double budget_s = thorough ? 540 : 45;
+  double budget_s = thorough ? 840 : 45;
   R.deadline_s = budget_s;
-  std::vector<Cfg> cfgs;
+  std::vector<Cfg> base_cfgs;
   std::vector<int> nts = thorough ? std::vector<int>{1, 2, 3, 4} : std::vector<int>{1, 2, 3};
-  for (int ord = 1; ord >= 0; ord--)
-    for (int nt : nts)
-      for (int F : {0, 1, 2, 3, 4})
-        for (int ff : {0, 1, 2})
-          for (int N : {-1, 0, 1, 2, F + 1}) {
+  for (int nt : nts)
+    for (int F : {0, 1, 2, 3, 4})
+      for (int ff : {0, 1, 2})
+        for (int N : {-1, 0, 1, 2, F + 1})
+          for (int ord = 1; ord >= 0; ord--) {
             if (F == 0 && (ff > 0 || N >= 0)) continue;
             if (N == F + 1 && (N == 1 || N == 2)) continue;  // duplicate of an earlier value
-            cfgs.push_back({nt, F, ff, N, ord == 1, true});
+            base_cfgs.push_back({nt, F, ff, N, ord == 1, false});
           }
-  auto bound_for = [&](const Cfg &c) {
-    if (c.nt == 1) return 1;
-    if (!thorough) return 1;
-    return c.nt == 2 ? 3 : (c.nt == 3 ? 2 : 1);
-  };
+  // Work items (configuration, segmentation, preemption bound) in the order they are explored: iterated bounds, small
+  // configurations first.  ul = the instant after every mutex release is a scheduling point too.
+  //   quick   : level 0: every configuration, ul, bound 1
+  //   thorough: level 0: nt<=3 ul bound 1, nt=4 acquire-only bound 1
+  //             level 1: nt=2 ul bound 2, nt=2 acquire-only bound 3, nt=3 acquire-only bound 2, nt=4 ul bound 1
+  // Level 0 gets at most 45% of the time budget in thorough; inside a level every item gets an equal share of what is left
+  // (unused time flows on), so an item that is too large is reported as capped and does not starve the items after it.
+  struct Item { Cfg c; int bound; int level; };
+  std::vector<Item> items;
+  for (const Cfg &b : base_cfgs) {
+    Cfg u = b; u.ul = true;
+    if (!thorough || b.nt <= 3) items.push_back({u, 1, 0}); else items.push_back({b, 1, 0});
+  }
+  if (thorough)
+    for (const Cfg &b : base_cfgs) {
+      Cfg u = b; u.ul = true;
+      if (b.nt == 2) { items.push_back({u, 2, 1}); items.push_back({b, 3, 1}); }
+      if (b.nt == 3) items.push_back({b, 2, 1});
+      if (b.nt == 4) items.push_back({u, 1, 1});
+    }
   R.rule = "all schedules (stateless DFS over the choice sequences of the vsched controlled scheduler; scheduling points: thread "
            "start/create/exit, every blocking mutex acquire, the instant after every mutex release, join, and harness yields inside the stub reader, EvalConfiguration and "
            "MergeWorker) with <= k preemptions of the real CsgApplication::Run driven through Application::Exec, for nt x frames-in-file x "
-           "--first-frame x --nframes x ordered/unordered; k = 1 (quick) / 3,2,1 for nt=2,3,4 (thorough). Oracle per execution: "
+           "--first-frame x --nframes x ordered/unordered; k = 1 with the release points (quick); thorough: iterated bounds, level 0 = bound 1 everywhere (release points for nt<=3), level 1 = bound 2 with release points and bound 3 acquire-only for nt=2, bound 2 acquire-only for nt=3, bound 1 with release points for nt=4; items cut short by their time share are counted in the evidence. Oracle per execution: "
            "no reader/merge overlap, reads in file order, every selected frame evaluated exactly once, ordered merge = single-thread "
            "result, unordered merged set = selected set, no deadlock/livelock. distinct_nontrivial = distinct (config, evaluation/merge "
            "order observation) pairs";
   vsx::Explorer ex;
   ex.horizon = horizon;
   long long unit = 0, schedules = 0, points = 0;
-  std::map<std::string, int> maxbound_done;
-  bool stop = false;
-  for (const Cfg &c : cfgs) {
-    if (stop) break;
-    ex.body = [&](vs_shared *shm, const std::vector<int> &ch) { child_body(c, shm, ch, horizon); };
-    int bound = bound_for(c);
-    auto on_exec = [&](const vsx::Exec &x) -> bool {
-      schedules++;
-      points += x.npoints();
-      R.eval();
-      Verdict v = judge(c, x);
-      std::string cas = cfgstr(c) + ";sched=" + vsx::sched_str(x.choices);
-      if (!v.ok) {
-        if (v.key == "MACHINERY") { fprintf(stderr, "MACHINERY-ERROR %s [%s]\n", v.what.c_str(), cas.c_str()); exit(2); }
-        R.fail(v.key, v.what + "  [" + cas + "]", cas);
-      } else {
-        R.cls(cfgstr(c) + "|" + v.obs);
-        if (R.samples.size() < R.max_samples && (schedules % 37 == 1)) R.sample(cas + " => " + v.obs);
+  std::map<std::string, long long> done, capped, sched_by;
+  for (int level = 0; level < 2; level++) {
+    std::vector<const Item *> todo;
+    for (const Item &it : items) if (it.level == level) todo.push_back(&it);
+    double level_end = (thorough && level == 0) ? 0.45 * R.deadline_s : R.deadline_s;
+    for (size_t ci = 0; ci < todo.size(); ci++) {
+      const Cfg &c = todo[ci]->c;
+      int bound = todo[ci]->bound;
+      std::string klass = "nt" + std::to_string(c.nt) + (c.ul ? "_ul" : "_acq") + "_bound" + std::to_string(bound);
+      ex.body = [&](vs_shared *shm, const std::vector<int> &ch) { child_body(c, shm, ch, horizon); };
+      // an item may use up to 3x the equal share of what is left of its level (items differ in size; unused time flows on);
+      // quick: the global budget only
+      double slice_end = thorough ? R.elapsed() + 3.0 * std::max(0.0, level_end - R.elapsed()) / double(todo.size() - ci) : R.deadline_s;
+      if (slice_end > level_end) slice_end = level_end;
+      bool cut = false;
+      auto on_exec = [&](const vsx::Exec &x) -> bool {
+        schedules++;
+        sched_by[klass]++;
+        points += x.npoints();
+        R.eval();
+        Verdict v = judge(c, x);
+        std::string cas = cfgstr(c) + ";sched=" + vsx::sched_str(x.choices);
+        if (!v.ok) {
+          if (v.key == "MACHINERY") { fprintf(stderr, "MACHINERY-ERROR %s [%s]\n", v.what.c_str(), cas.c_str()); exit(2); }
+          R.fail(v.key, v.what + "  [" + cas + "]", cas);
+        } else {
+          R.cls(cfgstr(c) + "|" + v.obs);
+          if (R.samples.size() < R.max_samples && (schedules % 37 == 1)) R.sample(cas + " => " + v.obs);
+        }
+        if (R.elapsed() > slice_end) { cut = true; return false; }
+        return true;
+      };
+      // root + first-level branches are the work units distributed over shards (same numbering in every shard)
+      vsx::Exec root = ex.run({});
+      std::vector<vsx::Explorer::Branch> br = ex.branches(root, bound);
+      long long base = unit;
+      unit += 1 + (long long)br.size();
+      if (a.mine(base)) { vsx::Exec r2 = ex.run({}); on_exec(r2); }
+      for (size_t bi = 0; bi < br.size() && !cut; bi++) {
+        if (!a.mine(base + 1 + (long long)bi)) continue;
+        ex.dfs(br[bi].prefix, br[bi].cost, bound, on_exec);
       }
-      if (R.out_of_time()) { R.cap("time budget reached while exploring " + cfgstr(c) + " at bound " + std::to_string(bound)); return false; }
-      return true;
-    };
-    // root + first-level branches are the work units distributed over shards
-    vsx::Exec root = ex.run({});
-    std::vector<vsx::Explorer::Branch> br = ex.branches(root, bound);
-    if (a.mine(unit++)) {
-      vsx::Exec r2 = ex.run({});
-      if (!on_exec(r2)) { stop = true; break; }
-    }
-    for (auto &b : br) {
-      if (!a.mine(unit++)) continue;
-      if (!ex.dfs(b.prefix, b.cost, bound, on_exec)) { stop = true; break; }
+      if (cut) {
+        capped[klass]++;
+        if (capped[klass] <= 2) R.cap("time share used up while exploring " + cfgstr(c) + " at bound " + std::to_string(bound));
+      } else done[klass]++;
     }
   }
+  for (auto &kv : done) R.counters["items_completed_" + kv.first] = kv.second;
+  for (auto &kv : capped) { R.counters["items_capped_" + kv.first] = kv.second; R.cap(std::to_string(kv.second) + " work items of class " + kv.first + " were cut short by their time share (this shard)"); }
+  for (auto &kv : sched_by) R.counters["schedules_" + kv.first] = kv.second;
   R.states = points;  // scheduling points visited = states of the explored execution tree
   R.transitions = points;
   R.traces = schedules;
   R.counters["schedules"] = schedules;
   R.counters["scheduling_points"] = points;
-  R.counters["configs"] = (long long)cfgs.size();
+  R.counters["configs"] = (long long)base_cfgs.size();
   R.assumptions = {"scheduling points at synchronisation operations suffice for data-race-free code (races are checked by a separate free-running TSan pass)",
                    "sequential consistency; stub readers/evaluators replace file I/O and analysis; <= 4 worker threads"};
   if (!R.write(a.out)) return 2;
